@@ -180,17 +180,21 @@ Proof.
   apply grant_core. rewrite <- Eq, with_tok_id. exact C.
 Qed.
 
-Lemma notify_nofree s : Core s -> NoFreeK 1 s -> NoFreeK 0 (notify_next s).
+Lemma notify_nofree_gen s :
+  (forall b, In b (keys (queue s)) -> ~ In b (borrowers s)) -> NoFreeK 1 s -> NoFreeK 0 (notify_next s).
 Proof.
-  intros C N. unfold notify_next. destruct (queue s) as [|[b e] r] eqn:Eq.
+  intros Hqb N. unfold notify_next. destruct (queue s) as [|[b e] r] eqn:Eq.
   - intros H. rewrite Eq in H. now contradiction H.
-  - assert (Hnb : ~ In b (borrowers s)) by (apply (L_qb _ C b); rewrite Eq; cbn; now left).
+  - assert (Hnb : ~ In b (borrowers s)) by (apply (Hqb b); cbn; now left).
     destruct (free (borrowers s) (total s)) eqn:Ef.
     + intros _. cbn. rewrite (set_add_new _ _ Hnb). cbn.
       assert (Hq : queue s <> []) by (rewrite Eq; discriminate). specialize (N Hq).
       destruct (total s) as [m|]; [lia|exact N].
     + intros _. apply free_false in Ef. destruct Ef as (m & -> & Hm). lia.
 Qed.
+
+Lemma notify_nofree s : Core s -> NoFreeK 1 s -> NoFreeK 0 (notify_next s).
+Proof. intros C. apply notify_nofree_gen. apply (L_qb _ C). Qed.
 
 (* ---------- nobody is inside an acquire for a borrower that neither holds a token nor queues ---------- *)
 Lemma not_inprog s b : Core s -> ~ In b (borrowers s) -> ~ In b (keys (queue s)) -> forall x, ~ inprog s x b.
@@ -608,14 +612,16 @@ Proof.
   - (* AcqOn *)
     destruct (is_idle (phase_of s t)) eqn:Ei; cbn [negb fst]; [|exact I]. apply is_idle_true in Ei.
     destruct (mem b (borrowers s)) eqn:Eb; cbn [fst]; [exact I|]. apply mem_false in Eb.
-    destruct (busy s) eqn:Ebusy; cbn [fst tainted]; intros Ht.
-    + apply orb_false_l2 in Ht. destruct Ht as [Ht Hk]. apply mem_false in Hk.
+    destruct (busy s) eqn:Ebusy.
+    + unfold enq_head. destruct (mem b (keys (queue s))) eqn:Hk; cbn [fst]; [exact I|].
+      apply mem_false in Hk. unfold enqueue. cbn [tainted]. intros Ht.
       destruct (I Ht) as [C N]. rewrite (queue_set_fresh _ _ _ Hk). constructor.
       * now apply enqueue_core.
       * intros _. cbn. unfold busy in Ebusy. apply orb_prop in Ebusy. destruct Ebusy as [Hq|Hf].
         -- apply N. intros E. rewrite E in Hq. discriminate.
         -- apply negb_true_iff in Hf. apply free_false in Hf. destruct Hf as (m & -> & Hm). lia.
-    + destruct (I Ht) as [C N]. unfold busy in Ebusy. apply orb_false_l2 in Ebusy. destruct Ebusy as [Hq Hf].
+    + cbn [fst tainted]. intros Ht.
+      destruct (I Ht) as [C N]. unfold busy in Ebusy. apply orb_false_l2 in Ebusy. destruct Ebusy as [Hq Hf].
       apply negb_false_iff, is_nil_true in Hq. constructor.
       * apply fast_core; auto. rewrite Hq. intros [].
       * intros H. cbn in H. contradiction.
@@ -694,3 +700,188 @@ Qed.
 
 Theorem reachable_inv v ops : Inv (final step (init v) ops).
 Proof. apply final_inv; [apply step_inv|apply inv_init]. Qed.
+
+(* =====================================================================================================
+   An invariant that holds in EVERY reachable state, also after the misuse O2 (no `tainted` hypothesis):
+   borrowers duplicate-free, at most one wait-queue slot per borrower, queued borrowers hold no token,
+   the queue is in arrival order, and no token is free while somebody queues.
+   ===================================================================================================== *)
+Record Ucore (s : st) : Prop := {
+  U_bnd : NoDup (borrowers s);
+  U_qnd : NoDup (keys (queue s));
+  U_qb : forall b, In b (keys (queue s)) -> ~ In b (borrowers s);
+  U_fifo : subseq (queue s) (arrivals s)
+}.
+
+Record Uinv (s : st) : Prop := {
+  U_core : Ucore s;
+  U_nofree : NoFreeK 0 s
+}.
+
+Lemma uinv_init v : Uinv (init v).
+Proof.
+  constructor; [constructor; cbn|].
+  - constructor.
+  - constructor.
+  - intros b [].
+  - apply ss_nil.
+  - intros H. now contradiction H.
+Qed.
+
+Lemma ucore_irrel s tot ev ne ph fc mc h rv tn :
+  Ucore s -> Ucore (mk tot (borrowers s) (queue s) ev ne ph fc mc h rv (arrivals s) tn).
+Proof. intros C. destruct C. constructor; cbn; assumption. Qed.
+
+Lemma grant_ucore s bs b e r ev rv :
+  Ucore (with_tok s bs ((b, e) :: r) ev rv) ->
+  Ucore (with_tok s (set_add b bs) r (upd ev e true) (b :: rv)).
+Proof.
+  intros C.
+  assert (Hnb : ~ In b bs) by (apply (U_qb _ C b); cbn; now left).
+  rewrite (set_add_new b bs Hnb).
+  pose proof (U_qnd _ C) as Hqn. cbn in Hqn. inversion Hqn as [|y l Hy Hl]; subst.
+  constructor; cbn.
+  - constructor; [exact Hnb|apply (U_bnd _ C)].
+  - exact Hl.
+  - intros x Hx [<-|Hb]; [contradiction|]. apply (U_qb _ C x); cbn; [now right|exact Hb].
+  - eapply subseq_trans; [apply subseq_tl|apply (U_fifo _ C)].
+Qed.
+
+Lemma notify_ucore s : Ucore s -> Ucore (notify_next s).
+Proof.
+  intros C. unfold notify_next. destruct (queue s) as [|[b e] r] eqn:Eq; [exact C|].
+  destruct (free (borrowers s) (total s)); [|exact C].
+  apply grant_ucore. rewrite <- Eq, with_tok_id. exact C.
+Qed.
+
+(* borrowers.remove / discard of b (present or not), then _notify_next_waiter *)
+Lemma give_back_uinv s b : Uinv s -> Uinv (give_back s b).
+Proof.
+  intros [C N]. unfold give_back.
+  set (s0 := with_tok s (remove_one b (borrowers s)) (queue s) (evset s) (resv s)).
+  assert (C0 : Ucore s0).
+  { constructor; cbn.
+    - apply nodup_remove_one, (U_bnd _ C).
+    - apply (U_qnd _ C).
+    - intros x Hx H. apply in_remove_one_incl in H. now apply (U_qb _ C x).
+    - apply (U_fifo _ C). }
+  constructor; [now apply notify_ucore|].
+  apply notify_nofree_gen; [apply (U_qb _ C0)|].
+  intros Hq. unfold s0 in *. cbn [queue total borrowers with_tok] in *. specialize (N Hq).
+  destruct (total s) as [m|]; [|exact N].
+  destruct (in_dec Nat.eq_dec b (borrowers s)) as [Hin|Hnin].
+  - pose proof (remove_one_length b (borrowers s) Hin) as Hl. unfold bid in *. rewrite <- Hl in N. lia.
+  - rewrite (remove_one_notin b _ Hnin). lia.
+Qed.
+
+Lemma give_back_fields_p s b : total (give_back s b) = total s.
+Proof.
+  unfold give_back, notify_next; cbn. destruct (queue s) as [|[b' e'] r]; [reflexivity|].
+  destruct (free _ _); reflexivity.
+Qed.
+
+Lemma uinv_irrel s ev ne ph fc mc h rv tn :
+  Uinv s -> Uinv (mk (total s) (borrowers s) (queue s) ev ne ph fc mc h rv (arrivals s) tn).
+Proof. intros [C N]. constructor; [now apply ucore_irrel|exact N]. Qed.
+
+Lemma wake_free_uinv s0 v q : forall bs ev rv,
+  Ucore (with_tok s0 bs q ev rv) ->
+  match wake_free v q bs ev rv with
+  | (q', bs', ev', rv') => Ucore (with_tok s0 bs' q' ev' rv') /\ (q' <> [] -> free bs' v = false)
+  end.
+Proof.
+  induction q as [|[b e] r IH]; intros bs ev rv C; cbn [wake_free].
+  - split; [exact C|]. intros H. now contradiction H.
+  - destruct (free bs v) eqn:Ef.
+    + apply IH. now apply grant_ucore.
+    + split; [exact C|]. intros _. exact Ef.
+Qed.
+
+Lemma set_total_uinv s v : Ucore s -> Uinv (set_total s v).
+Proof.
+  intros C. unfold set_total.
+  pose proof (wake_free_uinv (set_tot s v) v (queue s) (borrowers s) (evset s) (resv s)) as H.
+  destruct (wake_free v (queue s) (borrowers s) (evset s) (resv s)) as [[[q' bs'] ev'] rv'].
+  destruct H as [H1 H2]; [unfold set_tot, with_tok; cbn; now apply ucore_irrel|].
+  constructor; [exact H1|].
+  intros Hq. cbn in Hq. specialize (H2 Hq). cbn. apply free_false in H2. destruct H2 as (m & -> & Hm). lia.
+Qed.
+
+Lemma queue_pop_uinv s b ev ne ph fc mc h rv tn :
+  Uinv s -> Uinv (mk (total s) (borrowers s) (queue_pop (queue s) b) ev ne ph fc mc h rv (arrivals s) tn).
+Proof.
+  intros [C N]. constructor; [constructor; cbn|].
+  - apply (U_bnd _ C).
+  - eapply subseq_nodup; [apply subseq_map, queue_pop_subseq|apply (U_qnd _ C)].
+  - intros x Hx. apply (U_qb _ C). unfold keys in *.
+    eapply subseq_in; [apply subseq_map, queue_pop_subseq|exact Hx].
+  - eapply subseq_trans; [apply queue_pop_subseq|apply (U_fifo _ C)].
+  - intros Hq. cbn in *. apply N. intros E. rewrite E in Hq. now contradiction Hq.
+Qed.
+
+Lemma step_uinv s o : Uinv s -> Uinv (fst (step s o)).
+Proof.
+  intros U. pose proof U as [C N].
+  destruct o as [t b|t b|t b|t|t|t v|t k]; unfold step; cbn [step_gen].
+  - (* AcqOn *)
+    destruct (is_idle (phase_of s t)); cbn [negb fst]; [|exact U].
+    destruct (mem b (borrowers s)) eqn:Eb; cbn [fst]; [exact U|]. apply mem_false in Eb.
+    destruct (busy s) eqn:Ebusy.
+    + unfold enq_head. destruct (mem b (keys (queue s))) eqn:Hk; cbn [fst]; [exact U|].
+      apply mem_false in Hk. unfold enqueue. rewrite (queue_set_fresh _ _ _ Hk).
+      constructor; [constructor; cbn|].
+      * apply (U_bnd _ C).
+      * unfold keys. rewrite map_app. cbn. apply NoDup_app_tail1; [apply (U_qnd _ C)|exact Hk].
+      * intros x H. unfold keys in H. rewrite map_app in H. apply in_app_or in H.
+        destruct H as [H|[<-|[]]]; [now apply (U_qb _ C)|exact Eb].
+      * apply subseq_app_tail, (U_fifo _ C).
+      * intros _. cbn. unfold busy in Ebusy. apply orb_prop in Ebusy. destruct Ebusy as [Hq|Hf].
+        -- apply N. intros E. rewrite E in Hq. discriminate.
+        -- apply negb_true_iff in Hf. apply free_false in Hf. destruct Hf as (m & -> & Hm). lia.
+    + cbn [fst]. unfold busy in Ebusy. apply orb_false_l2 in Ebusy. destruct Ebusy as [Hq _].
+      apply negb_false_iff, is_nil_true in Hq. constructor; [constructor; cbn|].
+      * constructor; [exact Eb|apply (U_bnd _ C)].
+      * apply (U_qnd _ C).
+      * rewrite Hq. intros x [].
+      * apply (U_fifo _ C).
+      * intros H. cbn in H. contradiction.
+  - (* AcqOnNowait *)
+    destruct (is_idle (phase_of s t)); cbn [negb fst]; [|exact U].
+    destruct (mem b (borrowers s)) eqn:Eb; cbn [fst]; [exact U|]. apply mem_false in Eb.
+    destruct (busy s) eqn:Ebusy; cbn [fst]; [exact U|].
+    unfold busy in Ebusy. apply orb_false_l2 in Ebusy. destruct Ebusy as [Hq _].
+    apply negb_false_iff, is_nil_true in Hq. constructor; [constructor; cbn|].
+    + constructor; [exact Eb|apply (U_bnd _ C)].
+    + apply (U_qnd _ C).
+    + rewrite Hq. intros x [].
+    + apply (U_fifo _ C).
+    + intros H. cbn in H. contradiction.
+  - (* RelOn *)
+    destruct (is_idle (phase_of s t)); cbn [negb fst]; [|exact U].
+    destruct (mem b (borrowers s)); cbn [negb fst]; [|exact U].
+    pose proof (give_back_uinv s b U) as U1. cbv zeta. now apply uinv_irrel.
+  - (* Resume *)
+    destruct (phase_of s t) as [|b|b e]; [exact U| |].
+    + destruct (mustc s t).
+      * unfold fy_cancel. cbn [leave borrowers]. destruct (mem b (borrowers s)); cbn [fst].
+        -- apply give_back_uinv. unfold leave. now apply uinv_irrel.
+        -- unfold leave. now apply uinv_irrel.
+      * cbn [fst]. unfold add_held, leave. cbn. now apply uinv_irrel.
+    + destruct (negb (evset s e) && negb (fcanc s t)); cbn [fst]; [exact U|].
+      destruct (fcanc s t || mustc s t).
+      * destruct (evset s e); cbn [fst].
+        -- apply give_back_uinv. unfold set_queue, leave. cbn. now apply queue_pop_uinv.
+        -- unfold set_queue, leave. cbn. now apply queue_pop_uinv.
+      * cbn [fst]. unfold add_held, leave. cbn. now apply uinv_irrel.
+  - (* Cancel *)
+    destruct (phase_of s t) as [|b|b e]; [exact U| |].
+    + cbn [fst]. unfold set_mustc. now apply uinv_irrel.
+    + destruct (negb (evset s e) && negb (fcanc s t)); cbn [fst]; [|unfold set_mustc]; now apply uinv_irrel.
+  - (* SetTotal *)
+    destruct (is_idle (phase_of s t)); cbn [negb fst]; [|exact U]. now apply set_total_uinv.
+  - (* SetTotalBad *)
+    destruct (is_idle (phase_of s t)); cbn [negb fst]; [|exact U]. destruct k as [|[|[|k]]]; exact U.
+Qed.
+
+Theorem reachable_uinv v ops : Uinv (final step (init v) ops).
+Proof. apply final_inv; [apply step_uinv|apply uinv_init]. Qed.
